@@ -44,7 +44,7 @@ func c19GenFile(r *Rng, idx int, force int) c19File {
 	var tables []string // global tables that can get members
 	var ltables []string
 	for i := 0; i < nStat; i++ {
-		switch r.Intn(20) {
+		switch r.Intn(21) {
 		case 0:
 			v := nm("Loc")
 			sb.WriteString(fmt.Sprintf("local %s = %d\n", v, i))
@@ -113,6 +113,11 @@ func c19GenFile(r *Rng, idx int, force int) c19File {
 			v, g := nm("inner"), nm("InnerGlob")
 			sb.WriteString(fmt.Sprintf("do\n  local %s = 1\n  %s = %s\nend\n", v, g, v))
 			wants = append(wants, want{g, "global-assigned-in-block", true})
+		case 20:
+			// a local declared without a value and assigned a table constructor later
+			v, m2 := nm("FwdTab"), nm("fwdmemfn")
+			sb.WriteString(fmt.Sprintf("local %s\n%s = {\n  %s = function(z)\n    return z\n  end,\n  depth = %d,\n}\nprint(%s)\n", v, v, m2, i, v))
+			wants = append(wants, want{v, "top-level-local", false}, want{m2, "function-member-in-constructor-assigned-to-forward-declared-local", true})
 		case 19:
 			// a table declared through `or` (X = X or { ... }): its keyed fields are members like those of a plain constructor
 			m2 := nm("ormemfn")
